@@ -1,9 +1,228 @@
-(* C10 — placeholder while the harness is brought up; replaced by the theorems. *)
-From Coq Require Import ZArith NArith List Bool.
-From CL Require Import Base.Sx Base.Res Model.Tree Model.Observer.
+(* C10 — summaries count every event once; quiet hides only details; exit = errors.
+   Theorems only; each is closed by [exact] of a lemma proved in Proofs/.
+
+   Model: Model/Tree.v (Tree.__getitem__/__get, toJSON, getContent),
+   Model/Observer.v (Observer / ObserverList notify, updateStats,
+   serializeDetails; exit status of CompareLocales.handle), with the quiet
+   thresholds, category names, summary keys and exit statuses of
+   Generated/ObserverFacts.v.
+
+   Standing premises, and why they hold of the program:
+   - [ev_ok]: the path of a notified file has at least one segment (str.split
+     never returns []), and updateStats is called with keys of the counter dict;
+   - [prefix_free]: no file path is a proper prefix of another file path. *)
+From Coq Require Import ZArith NArith List Bool Arith.
+From CL Require Import Base.Sx Base.Res Base.Str Model.Tree Model.Observer
+  Generated.ObserverFacts Proofs.TreeProofs Proofs.TreeRefine Proofs.ObserverProofs
+  Proofs.ObserverList Proofs.C10Final.
 Import ListNotations.
 
-Example C10_example_tree :
-  toJSON (match run_tree (@empty_tree nat) [([1;2]%N, [7]); ([1;3]%N, [8])] with Ok t => t | _ => empty_tree end)
-  = JDict [([1]%N, JDict [([2]%N, JVal [7]); ([3]%N, JVal [8])])].
+(* ---- the detail tree ------------------------------------------------------------- *)
+
+(* For every history of insertions tree[path].extend(xs) over a prefix-free set
+   of non-empty paths, in any order and with any repetitions: no step raises,
+   the invariant holds (no empty key, sibling keys start with pairwise distinct
+   segments, a node with a value has no branches), flattening the tree gives
+   exactly the association path |-> concatenation of the values appended for
+   that path, in order, every path once; and toJSON shows all of it. *)
+Theorem C10_tree_refines : forall (V : Type) (h : list (key * list V)),
+  Forall (fun e => fst e <> []) h -> prefix_free (map fst h) ->
+  exists t, run_tree empty_tree h = Ok t /\ inv t /\
+            (forall q v, In (q, v) (flatten t) <-> hval h q = Some v) /\
+            NoDup (map fst (flatten t)) /\
+            flatten_json (toJSON t) = flatten t.
+Proof. exact (@tree_refines). Qed.
+
+(* One insertion, on any tree satisfying the invariant (not only reachable
+   ones): only the association of the inserted path changes. *)
+Theorem C10_tree_step : forall (V : Type) fuel (t : tree V) parts xs,
+  parts <> [] -> length parts < fuel -> inv t -> pfree parts (flatten t) ->
+  exists t', get_app fuel t parts xs = Ok t' /\ inv t' /\
+             upd_spec (flatten t) (flatten t') parts xs.
+Proof. exact (@get_app_refines). Qed.
+
+(* Without prefix-freeness the walk still never raises: [i] is never read
+   unbound, self.branches[common] never misses, the fuel (length of the path
+   + 1) is never exhausted. *)
+Theorem C10_tree_total : forall (V : Type) (t : tree V) parts xs,
+  parts <> [] -> keys_ok t -> exists t', tree_getitem t parts xs = Ok t' /\ keys_ok t'.
+Proof. exact (@tree_getitem_ok). Qed.
+
+(* ---- summaries ---------------------------------------------------------------------- *)
+
+(* One Observer with any filter, any quiet level, any history: the number shown
+   for a locale and a key is the number of error / warning notifications for
+   that locale the filter does not ignore (under the key category + "s") plus
+   the values of that key in the stats the filter does not ignore; the totals
+   over locales likewise; the error flag is set iff a non-ignored error was
+   notified or non-ignored stats carried the errors key. *)
+Theorem C10_summary : forall q flt h loc k, Forall ev_ok h ->
+  count_of (o_summary (orun q flt init_state h)) loc k = hist_count flt h loc k /\
+  total (o_summary (orun q flt init_state h)) k = hist_total flt h k /\
+  o_error (orun q flt init_state h) = existsb (ev_sets_error flt) h.
+Proof. exact summary_counts. Qed.
+
+(* ObserverList: every project observer receives the whole history exactly as
+   if it were alone; the list's own observer (no filter) receives exactly the
+   events that at least one project observer does not ignore, and all stats. *)
+Theorem C10_summary_list : forall q confs h, Forall ev_ok h ->
+  let st := fst (lrun q (init_list confs) h) in
+  l_own st = orun q None init_state (filter (ev_reaches confs) h) /\
+  l_obs st = map (fun cf => (cf, orun (c_quiet cf) (c_filter cf) init_state h)) confs.
+Proof. exact list_run. Qed.
+
+(* ---- quiet -------------------------------------------------------------------------- *)
+
+(* One Observer: summary and error flag do not depend on the quiet level; the
+   details at a higher level are, file by file, subsequences of the details at a
+   lower level (nothing appears, nothing moves to another file). *)
+Theorem C10_quiet : forall q q' flt h, q <= q' -> Forall ev_ok h -> prefix_free (hist_paths h) ->
+  let st := orun q flt init_state h in
+  let st' := orun q' flt init_state h in
+  o_summary st' = o_summary st /\ o_error st' = o_error st /\
+  (forall p v', In (p, v') (flatten (o_details st')) ->
+                exists v, In (p, v) (flatten (o_details st)) /\ subseq v' v).
+Proof. exact orun_quiet. Qed.
+
+(* The list as compareProjects builds it (one quiet level for the list and all
+   project observers): the same, plus the exit status and the project
+   observers' summaries and flags. *)
+Theorem C10_quiet_list : forall q q' confs h, q <= q' -> Forall ev_ok h -> prefix_free (hist_paths h) ->
+  let st := fst (lrun q (init_list (map (with_quiet q) confs)) h) in
+  let st' := fst (lrun q' (init_list (map (with_quiet q') confs)) h) in
+  o_summary (l_own st') = o_summary (l_own st) /\
+  o_error (l_own st') = o_error (l_own st) /\
+  (forall rz, exit_code rz st' = exit_code rz st) /\
+  (forall p v', In (p, v') (flatten (o_details (l_own st'))) ->
+                exists v, In (p, v) (flatten (o_details (l_own st))) /\ subseq v' v) /\
+  map (fun cs => (o_summary (snd cs), o_error (snd cs))) (l_obs st') =
+  map (fun cs => (o_summary (snd cs), o_error (snd cs))) (l_obs st).
+Proof. exact list_quiet. Qed.
+
+(* the details of a run are the association given by the displayed events *)
+Theorem C10_details : forall q flt h, Forall ev_ok h -> prefix_free (hist_paths h) ->
+  let t := o_details (orun_pure q flt init_state h) in
+  inv t /\ (forall p v, In (p, v) (flatten t) <-> hval (dlog q flt h) p = Some v) /\
+  NoDup (map fst (flatten t)) /\ flatten_json (toJSON t) = flatten t.
+Proof. exact orun_details_refine. Qed.
+
+(* ---- exit status ------------------------------------------------------------------ *)
+
+(* any state: the status is the error status iff return_zero is off and the
+   list's error flag is set *)
+Theorem C10_exit_flag : forall rz st,
+  exit_code rz st = exit_error <-> rz = false /\ o_error (l_own st) = true.
+Proof. exact exit_code_spec. Qed.
+
+(* after any history in which updateStats is never given the errors key: the
+   status is the error status iff return_zero is off and the list's own summary
+   counts at least one error (over all locales) *)
+Theorem C10_exit : forall rz q confs h, Forall ev_ok h -> Forall no_errors_stats h ->
+  let st := fst (lrun q (init_list confs) h) in
+  exit_code rz st = exit_error <-> rz = false /\ 0 < total (o_summary (l_own st)) (msg_key CError).
+Proof. exact exit_counts. Qed.
+
+(* ---- fan-out ------------------------------------------------------------------------ *)
+
+(* ObserverList.notify on any well-formed state: every project observer is
+   notified; the list's own observer iff not all of them ignore; the return
+   value is "ignore" iff all ignore (also when there is no observer), "error"
+   if any says error; with verdicts in {error, warning, ignore} the assertion
+   never fires and the result is one of the three; nothing but that assertion
+   can raise. *)
+Theorem C10_fanout : forall q st c f d, lst_ok st -> file_parts f <> [] ->
+  let vs := obs_verdicts (l_obs st) c f d in
+  let st' := fst (lnotify q st c f d) in
+  let r := snd (lnotify q st c f d) in
+  l_obs st' = obs_notified (l_obs st) c f d /\
+  l_own st' = (if reaches (l_obs st) c f d then notify_state q None (l_own st) c f d else l_own st) /\
+  lst_ok st' /\
+  (r = Ok VIgnore <-> forallb is_ignore vs = true) /\
+  (existsb is_error vs = true -> r = Ok VError) /\
+  (Forall three_valued vs -> r <> Raise AssertionError /\ exists v, r = Ok v /\ three_valued v) /\
+  (forall t, r = Raise t -> t = AssertionError).
+Proof. exact lnotify_spec. Qed.
+
+(* the assertion is not dead code for other verdict strings *)
+Example C10_fanout_assert_reachable :
+  let flt (n : N) : option filter_t := Some (fun _ _ => VOther n) in
+  let f := {| f_id := 0%N; f_locale := 1%N; f_leaf := LStr [2%N] |} in
+  snd (lnotify 0 (init_list [{| c_quiet := 0; c_filter := flt 1%N |}; {| c_quiet := 0; c_filter := flt 2%N |}])
+               CWarning f (DStr 1%N)) = Raise AssertionError.
 Proof. vm_compute. reflexivity. Qed.
+
+(* ---- the facts the proofs use --------------------------------------------------------- *)
+Example C10_facts :
+  In (msg_key CError) summary_keys /\ In (msg_key CWarning) summary_keys /\
+  msg_key CError = stats_errors_key /\ exit_error <> exit_ok /\
+  thr_obsolete_file_shown = 0 /\
+  map classify [name_missingFile; name_obsoleteFile; name_missingEntity; name_obsoleteEntity;
+                name_error; name_warning]
+  = [MissingFile; ObsoleteFile; MissingEntity; ObsoleteEntity; CError; CWarning].
+Proof. vm_compute. repeat split; try tauto; discriminate. Qed.
+
+(* ---- a concrete run; the premises hold of it ---------------------------------------- *)
+Definition ex_f1 := {| f_id := 0%N; f_locale := 1%N; f_leaf := LFile (Some [2%N]) [3%N; 4%N] |}.
+Definition ex_f2 := {| f_id := 1%N; f_locale := 1%N; f_leaf := LFile None [1%N; 2%N; 5%N] |}.
+Definition ex_f3 := {| f_id := 2%N; f_locale := 7%N; f_leaf := LStr [6%N] |}.
+Definition ex_key_missing : str := [109; 105; 115; 115; 105; 110; 103]%N.
+Definition ex_h : list event :=
+  [ENotify CError ex_f1 (DStr 1%N); ENotify MissingEntity ex_f2 (DTup 2%N);
+   ENotify CWarning ex_f2 (DStr 3%N); EStats ex_f1 [(ex_key_missing, 2)];
+   ENotify ObsoleteFile ex_f3 DNone; ENotify CError ex_f2 (DStr 4%N);
+   ENotify ObsoleteEntity ex_f1 (DStr 5%N)].
+(* ignores file 2 and the error "4" *)
+Definition ex_flt : filter_t :=
+  fun f d => if N.eqb (f_id f) 2%N then VIgnore
+             else match d with DStr 4%N => VIgnore | DStr 3%N => VWarning | _ => VError end.
+Definition ex_confs := [{| c_quiet := 1; c_filter := Some ex_flt |}; {| c_quiet := 1; c_filter := None |}].
+
+Example C10_example_premises :
+  Forall ev_ok ex_h /\ prefix_free (hist_paths ex_h) /\ Forall no_errors_stats ex_h.
+Proof.
+  split; [|split].
+  - assert (Hk : In ex_key_missing summary_keys) by (vm_compute; tauto).
+    unfold ex_h.
+    repeat (apply Forall_cons;
+            [first [ simpl; discriminate | apply Forall_cons; [exact Hk | apply Forall_nil] ] | ]).
+    apply Forall_nil.
+  - intros p q Hp Hq (r & Hr & E). vm_compute in Hp, Hq.
+    repeat (destruct Hp as [Hp | Hp]; try contradiction);
+      repeat (destruct Hq as [Hq | Hq]; try contradiction); subst;
+      destruct r as [|a [|b [|c r]]]; try congruence; discriminate.
+  - repeat constructor.
+Qed.
+
+Example C10_example_run :
+  let st := fst (lrun 1 (init_list ex_confs) ex_h) in
+  (* the filtered observer: one error, one warning, 2 missing; the unfiltered one and the
+     list itself: two errors *)
+  map (fun cs => (count_of (o_summary (snd cs)) 1%N (msg_key CError),
+                  count_of (o_summary (snd cs)) 1%N (msg_key CWarning),
+                  count_of (o_summary (snd cs)) 1%N ex_key_missing)) (l_obs st)
+    = [(1, 1, 2); (2, 1, 2)] /\
+  count_of (o_summary (l_own st)) 1%N (msg_key CError) = 2 /\
+  (* quiet 1 hides the obsolete entity and the obsolete file, nothing else *)
+  toJSON (o_details (l_own st)) =
+    JDict [([1%N; 2%N], JDict [([3%N; 4%N], JVal [IMsg true (DStr 1%N)]);
+                               ([5%N], JVal [IEntity true (DTup 2%N); IMsg false (DStr 3%N);
+                                             IMsg true (DStr 4%N)])])] /\
+  exit_code false st = 1%Z /\ exit_code true st = 0%Z.
+Proof. vm_compute. repeat split; reflexivity. Qed.
+
+(* a history of insertions whose tree splits and re-splits *)
+Example C10_example_tree :
+  let h := [([1; 2; 3]%N, [10]); ([4]%N, [20]); ([1; 2; 5]%N, [30]); ([1; 6]%N, [40]);
+            ([1; 2; 3]%N, [11])] in
+  exists t, run_tree (@empty_tree nat) h = Ok t /\
+    toJSON t = JDict [([4]%N, JVal [20]);
+                      ([1]%N, JDict [([2]%N, JDict [([3]%N, JVal [10; 11]); ([5]%N, JVal [30])]);
+                                     ([6]%N, JVal [40])])] /\
+    prefix_free (map fst h).
+Proof.
+  eexists. split; [vm_compute; reflexivity|]. split; [reflexivity|].
+  intros p q Hp Hq (r & Hr & E). vm_compute in Hp, Hq.
+  repeat (destruct Hp as [Hp | Hp]; try contradiction);
+    repeat (destruct Hq as [Hq | Hq]; try contradiction); subst;
+    destruct r as [|a [|b [|c r]]]; try congruence; discriminate.
+Qed.
